@@ -57,6 +57,10 @@ class TemplateExecutor(Executor):
             return SV(z3.Const("py_None", VAL_SORT), VAL)
         if isinstance(v, StarArgs):
             return v.v
+        if hasattr(v, "yielded") and getattr(v, "yielded", None) is not None:
+            sv = v.yielded  # a generator run to completion: the list of what it yields
+            self.p.assume(VUNLIST(VLIST(sv.z)) == sv.z)
+            return SV(VLIST(sv.z), VAL)
         if isinstance(v, tuple):
             return lift(lift([self.to_val(x) for x in v], SEQ(VAL)) if v else SV(z3.Empty(SEQ(VAL).sort()), SEQ(VAL)), VAL)
         if isinstance(v, Closure):
@@ -72,6 +76,12 @@ class TemplateExecutor(Executor):
         for k in sorted(kwargs):
             if k != "ctx" and not self.is_ctx(kwargs[k]):
                 vals.append(self.to_val(kwargs[k]))
+        if name == "LazyList" and len(vals) >= 1:
+            # assumed contract of the LazyList constructor (the class itself is C13's subject)
+            r = uf("app_LazyList", [VAL_SORT], VAL_SORT)(vals[0].z)
+            self.p.assume(VUNLIST(r) == VUNLIST(vals[0].z))
+            self.w.used_assumption("LazyList(source) enumerates exactly the items of source (assumed here; C13 verifies the class)")
+            return SV(r, VAL)
         if name == "deep_copy" and len(vals) == 1:
             # assumed contract of helpers.deep_copy (its own obligations are C13): the copy enumerates the same items
             r = uf("app_deep_copy", [VAL_SORT], VAL_SORT)(vals[0].z)
@@ -122,6 +132,8 @@ class TemplateExecutor(Executor):
 
     def index(self, base, idx, node=None):
         if isinstance(base, SV) and base.ty.kind == "val":
+            if isinstance(idx, int) and idx >= 0:
+                return SV(VUNLIST(base.z)[idx], VAL)  # item idx of a list value
             return self.opaque_call("index", [base, idx], {})
         return super().index(base, idx, node)
 
@@ -263,6 +275,8 @@ class TemplateExecutor(Executor):
         if isinstance(op, (ast.In, ast.NotIn)) and (isinstance(b, SV) and b.ty.kind == "val" or isinstance(a, (OpaqueValue, type)) ):
             r = SV(uf("contains", [VAL_SORT, VAL_SORT], z3.BoolSort())(self.to_val(b).z, self.to_val(a).z), BOOL)
             return SV(z3.Not(r.z), BOOL) if isinstance(op, ast.NotIn) else r
+        if isinstance(op, (ast.Is, ast.IsNot)) and (isinstance(a, SV) and a.ty.kind == "val") and b is None and getattr(self.w, "val_never_none", False):
+            return isinstance(op, ast.IsNot)  # in this contract a parameter declared as a value is not None
         if isinstance(op, (ast.Is, ast.IsNot)) and (isinstance(a, SV) and a.ty.kind == "val") and b is None:
             r = SV(uf("is_none", [VAL_SORT], z3.BoolSort())(a.z), BOOL)
             return SV(z3.Not(r.z), BOOL) if isinstance(op, ast.IsNot) else r
